@@ -120,6 +120,30 @@ proof!(k1_float, 2, {
     forget(y);
 });
 
+//@ k1_float_total props=C08,C13 tier=quick expect=pass fns=compare_values :: compare_values on Float x Float, both any f64 bit pattern: never panics; Ok(IEEE order) for ordered pairs, Err(NotComparable) iff one side is NaN (a NaN reaches it from a YAML `.nan` scalar)
+proof!(k1_float_total, 2, {
+    let a: f64 = kani::any();
+    let c: f64 = kani::any();
+    let x = PathAwareValue::Float((p(), a));
+    let y = PathAwareValue::Float((p(), c));
+    let r = compare_values(&x, &y);
+    match &r {
+        Ok(o) => {
+            assert!(!a.is_nan() && !c.is_nan());
+            assert!((*o == Ordering::Less) == (a < c));
+            assert!((*o == Ordering::Equal) == (a == c));
+            assert!((*o == Ordering::Greater) == (a > c));
+        }
+        Err(Error::NotComparable(_)) => assert!(a.is_nan() || c.is_nan()),
+        Err(_) => assert!(false, "unexpected error kind"),
+    }
+    kani::cover!(a.is_nan() && !c.is_nan());
+    kani::cover!(a < c);
+    forget(r);
+    forget(x);
+    forget(y);
+});
+
 //@ k1_char props=C13,C08:t tier=quick expect=pass fns=compare_values,compare_lt,compare_le,compare_gt,compare_ge,compare_eq :: Char x Char, any two chars: ordered algebra with code-point order
 proof!(k1_char, 2, {
     let a: char = kani::any();
